@@ -1,7 +1,7 @@
 /* C20 harnesses: the suspend/resume hand-shake on suspend_point_type::m_stack_state, both race orders, thread-modular. */
 #include "verif.h"
 enum { active, suspended, notified };
-struct sp { int m_stack_state; bool m_is_owner_recalled; struct sp *m_prev_suspend_point; };
+struct sp { int m_stack_state; bool m_is_owner_recalled; bool m_is_critical; struct sp *m_prev_suspend_point; };
 static struct sp P /* the stack being suspended and resumed */, Q /* the stack the leaver switched to */;
 /* ghost */
 bool r_called /* the resumer did its exchange */, l_done /* the leaver did its exchange */, l_owes, r_owes; unsigned pushes; int g_role; /* 0: code under proof is the resumer, 1: the leaver */
@@ -27,10 +27,12 @@ static void interfere(void) { if (g_role == 0) leaver_steps(false); else resumer
                                               else { __CPROVER_assert(l_owes && old_ == suspended, "C20: the leaver re-issues the resume only for a stack it has just marked suspended"); } } } while (0)
 #define GHOST_fin_XCHG_1 do { if (self->m_prev_suspend_point == &P) { l_done = true; if (old_ == notified) l_owes = true; } } while (0)
 static void STUB_arena_ref(void) {} static void STUB_arena_unref(void) {} static void STUB_advertise(void) {}
-static bool STUB_target_critical_allowed(struct sp *s) { return nondet_bool(); }
+bool g_crit_allowed;
+static bool STUB_target_critical_allowed(struct sp *s) { return g_crit_allowed = nondet_bool(); }
 static void STUB_push_resume_task(struct sp *s, int critical) {
     OBLIGATION(s == &P && l_done, "C20: no resume task is pushed while the stack is still active (the leaver has marked it suspended)");
     OBLIGATION(g_role == 0 ? r_owes : l_owes, "C20: a resume task is pushed only by the party that owes it");
+    OBLIGATION(critical == !g_crit_allowed, "C20: the resume task goes to the resume stream, which every waiting thread polls, unless the target stack is inside a critical task (then the critical stream) - otherwise isolated waiters never continue it");
     pushes++; if (g_role == 0) r_owes = false; else l_owes = false;
 }
 void r1_resume(struct sp *sp);
